@@ -80,8 +80,11 @@ fn hammer_program(variant: u64, n: u64) -> String {
         3 => "    out.append(m_index(\"abc\" + str(i), \"c\"))\n    out.append(m_index((\"q\" * (i % 3)) + \"z\", \"z\"))\n",
         _ => "    c = [i, i + 1] if i % 2 == 0 else {i: 1, i + 1: 2}\n    out.append(m_pop(c, 0 if i % 2 == 0 else i))\n    out.append(m_clear(c))\n",
     };
+    // Types created by this thread while other threads create theirs (process-wide id generator):
+    // values of one type must never pass for values of another, shared or own.
+    let types = "OwnR = record(x = int, y = field(str, \"d\"))\nOwnE = enum(\"red\", \"green\", \"blue\")\nOwnR2 = record(x = int, y = field(str, \"d\"))\ndef typed_own(r: OwnR, e: OwnE) -> OwnR2:\n    return OwnR2(x = r.x + e.index)\nout.append([isinstance(mkrec(1), OwnR), isinstance(OwnR(x = 1), Rec), isinstance(OwnR(x = 1), OwnR2), OwnR(x = 1) == mkrec(1), OwnR(x = 1, y = \"1\") == OwnR2(x = 1, y = \"1\"), OwnE(\"red\") == Col(\"red\"), isinstance(OwnE(\"red\"), Col), isinstance(Col(\"red\"), OwnE), typed_own(OwnR(x = 2), OwnE(\"blue\")), repr(OwnR), repr(OwnE)])\n";
     format!(
-        "load(\"shared0\", \"m_pop\", \"m_clear\", \"m_index\", \"m_remove\", \"m_update\", \"enc\", \"show\", \"dstr\", \"strs2\", \"nested\")\nout = []\nfor i in range({n}):\n{body}    out.append(enc(nested)[-24:])\n    out.append(show(nested)[:30])\n    out.append(enc(dstr)[:16])\nemit(out[:14], len(out), hash(str(out)))\n"
+        "load(\"shared0\", \"m_pop\", \"m_clear\", \"m_index\", \"m_remove\", \"m_update\", \"enc\", \"show\", \"dstr\", \"strs2\", \"nested\", \"Rec\", \"Col\", \"mkrec\")\nout = []\n{types}for i in range({n}):\n{body}    out.append(enc(nested)[-24:])\n    out.append(show(nested)[:30])\n    out.append(enc(dstr)[:16])\nemit(out[:14], len(out), hash(str(out)))\n"
     )
 }
 
@@ -111,7 +114,8 @@ fn build_shared(case: &Json) -> Shared {
     let empty = Vec::new();
     for (i, m) in case["shared"].as_array().unwrap_or(&empty).iter().enumerate() {
         let stmts: Vec<String> = m.as_array().map(|a| a.iter().filter_map(|x| x.as_str().map(|s| s.to_owned())).collect()).unwrap_or_default();
-        let text = format!("{}\n{}", stmts.join("\n"), if i == 0 { SHARED_EXTRA } else { "" });
+        // The fixed helpers come first: they exist whatever happens to the generated part.
+        let text = format!("{}\n{}\n", if i == 0 { SHARED_EXTRA } else { "" }, stmts.join("\n"));
         let loader = kit::MapLoader { modules: modules.clone() };
         let fm = Module::with_temp_heap(|module| {
             {
@@ -597,6 +601,13 @@ impl World for C20 {
         let mut log: Vec<String> = Vec::new();
         for t in &reference.transcripts {
             log.extend(t.iter().cloned());
+            for l in t.iter().filter(|l| l.starts_with("error[")) {
+                o.bump("thread_programs_ending_in_error", 1);
+                if std::env::var_os("VERIF_DEBUG_OBS").is_some() {
+                    let msg = l.lines().find(|x| x.starts_with("error: ")).unwrap_or(l.lines().next().unwrap_or(""));
+                    o.bump(&format!("err.{}", msg.chars().take(140).collect::<String>()), 1);
+                }
+            }
         }
         if let Some(h) = &reference.hung {
             o.violate("hang", "hang", format!("sequential schedule: {h}"));
